@@ -530,6 +530,49 @@ def run(chk, scratch):
     for k in trim_classes:
         if not k.startswith("A0/T0"):
             chk.nontrivial.add("trim:" + k)
+    # output level: the same alignments written (a) with M operations, (b) with =/X operations, (c) with hard clips added at both ends
+    # must give the same exons column, corrected alignments and tables
+    from vlib import world2, pipeline, runner
+    import copy
+    d = os.path.join(scratch, "notation")
+    w = world2.rich_world(chk.seed * 3 + 1, n_chroms=2, genes_per_chrom=3, reads_per_t=4, hidden_cov=4, eqx_every=0,
+                          zoo=("twins", "ambiguous_only", "alt_terminal"))
+    variants = {"M": w}
+    we = copy.copy(w)
+    we.reads = [copy.copy(r) for r in w.reads]
+    for r in we.reads:
+        if not (r.flag & 4):
+            r.cigar = list(r.cigar)
+            we.to_eqx(r)
+    variants["eqx"] = we
+    wh = copy.copy(w)
+    wh.reads = [copy.copy(r) for r in w.reads]
+    for i, r in enumerate(wh.reads):
+        if not (r.flag & 4):
+            r.cigar = ([(5, 11)] if i % 3 != 1 else []) + list(r.cigar) + ([(5, 23)] if i % 3 != 2 else [])
+    variants["hard-clipped"] = wh
+
+    def run_variant(item):
+        name, wv = item
+        dv = os.path.join(d, name)
+        pipeline.write_world(wv, dv)
+        return name, dv, pipeline.run(dv, os.path.join(dv, "out"), threads=2, extra=["--count_exons"])
+    res_v = {name: (dv, r) for name, dv, r in runner.parallel(run_variant, list(variants.items()), workers=3)}
+    if all(r["rc"] == 0 for dv, r in res_v.values()):
+        base = os.path.join(res_v["M"][0], "out", pipeline.PREFIX)
+        for name in ("eqx", "hard-clipped"):
+            chk.note()
+            chk.count("notation_variants_compared")
+            for rel, why in runner.compare_trees(base, os.path.join(res_v[name][0], "out", pipeline.PREFIX))[:5]:
+                chk.violation("alignment-notation-changes-output:%s:%s" % (name, rel.split(".", 1)[1] if "." in rel else rel),
+                              "pipeline run: %s %s between the M notation and the %s notation of the same alignments" % (rel, why, name),
+                              {"variant": name, "file": rel})
+    else:
+        for name, (dv, r) in res_v.items():
+            if r["rc"] is None:
+                chk.inconclusive.append("watchdog expired in the notation variant " + name)
+            elif r["rc"] != 0:
+                chk.violation("alignment-notation:run-failed:" + name, "pipeline run on the %s notation failed: %s" % (name, pipeline.fail_text(r)), {"variant": name})
     chk.extra.update({"contract_evaluations": total_evals, "alignmentinfo_objects": ai, "cigar_pattern_classes": classes,
                       "trim_classes": trim_classes, "reads_with_trimmed_exons": trimmed,
                       "exhaustive": True, "max_core_ops": max_ops, "enumerated_cores": len(cores)})
@@ -537,5 +580,6 @@ def run(chk, scratch):
                        "N-delimited segments without an aligned base yield no exon (deletion-only segments may be reported or dropped); all other exons must be exact"]
     chk.inconclusive_if(total_evals == 0, "contract on get_read_blocks never evaluated")
     chk.inconclusive_if(trimmed == 0, "no read had terminal exons trimmed")
+    chk.inconclusive_if(chk.extra.get("notation_variants_compared", 0) == 0 and not chk.violations, "no pipeline-level notation variant compared")
     chk.inconclusive_if(chk.extra.get("hard_clip_pairs_compared", 0) == 0, "no hard-clipped record compared with its unclipped twin")
     chk.min_nontrivial = 8
